@@ -1,8 +1,1165 @@
-//! C10 — monitor not built yet.
+//! C10 — branch and handoff record correct lineage and never touch the parent.
+//!
+//! Random parent histories (no messages at all, one message, runs in flight, messages answered by
+//! several runs, long mixes, children used as parents) × selector ∈ {none, seq 0 / mid / head /
+//! head+1 / u64::MAX, known / unknown / non-message / other-thread / malformed id, both} × summary
+//! ∈ {text, existing artifact id, non-existent id, neither, both} through the public
+//! `ContinuityStore` API and through the real HTTP routes. The oracle is a byte diff of
+//! `events.jsonl` around every call, parsed independently (`truth.rs`), judged against the cut
+//! rule of ADR-0009 re-implemented here from the raw frames.
+
+use crate::fixture::{runtime, App, Store};
+use crate::gen_hist::{exec, pick_kind, Known, OpKind};
+use crate::prng::Rng;
 use crate::report::{Cfg, Report};
+use crate::truth::{self, Frame};
+use serde_json::{json, Value};
+use std::collections::BTreeMap;
+
+const SIG_UNRESOLVABLE: &str = "C10/handoff_unresolvable_summary/nonexistent_summary_artifact_id";
 
 pub fn run(cfg: &Cfg) -> i32 {
-    let mut r = Report::new("C10", "exploration", "not built");
-    r.fatal_inconclusive("monitor not built yet");
+    let mut r = Report::new(
+        "C10",
+        "exploration",
+        "seeded parent histories (0..~120 frames: no messages / one message / runs in flight / several runs per \
+         message / children used as parents) x selector {none, seq 0|mid|head|head+1|u64::MAX, id known|unknown|\
+         non-message|other-thread|malformed, both} x summary {text, existing id, missing id, neither, both} x \
+         transport {store API, HTTP route}; every call is judged on the byte diff of events.jsonl; a call is \
+         non-trivial when it reached the store's branch/handoff code; distinct = (op, selector class, summary \
+         class, transport, history shape, outcome)",
+    );
+    r.assume("calls are sequential: the property quantifies over histories and inputs, not schedules");
+    r.assume("a summary is 'resolvable' when the lineage frame carries summary_markdown or its summary_artifact_id names a blob under <ws>/.rip/artifacts/blobs that parses as JSON");
+    let rt = runtime(2);
+    let mut stats = Stats::default();
+
+    // replay of one stored witness
+    if let Some(path) = &cfg.replay {
+        let doc: Value = std::fs::read(path)
+            .ok()
+            .and_then(|b| serde_json::from_slice(&b).ok())
+            .unwrap_or(Value::Null);
+        let seed = doc.get("seed").and_then(|x| x.as_u64()).unwrap_or(cfg.seed);
+        let w = doc.get("witness").cloned().unwrap_or(Value::Null);
+        if w.get("directed").is_some() {
+            directed(cfg, &mut r, &rt, &mut stats);
+        } else if let Some(idx) = w.get("case").and_then(|x| x.as_u64()) {
+            let mut rng = Rng::derive(seed, idx);
+            one_case(cfg, &mut r, &rt, &mut rng, idx, &mut stats);
+        } else {
+            r.fatal_inconclusive("replay file has no witness.case / witness.directed");
+        }
+        stats.flush(&mut r);
+        return r.finish(cfg);
+    }
+
+    // directed cases run on every invocation (every shard): they make known findings manifest
+    // deterministically
+    directed(cfg, &mut r, &rt, &mut stats);
+
+    let max_cases = cfg.tier.pick(480u64, 1_000_000u64);
+    let mut case = 0u64;
+    while case < max_cases && !r.over(cfg) {
+        let idx = case;
+        case += 1;
+        if !cfg.mine(idx) {
+            continue;
+        }
+        let mut rng = cfg.case_rng(idx);
+        one_case(cfg, &mut r, &rt, &mut rng, idx, &mut stats);
+    }
+    stats.flush(&mut r);
+    if stats.calls_reached_store == 0 {
+        r.fatal_inconclusive("no branch/handoff call reached the store");
+    }
+    drop(rt);
     r.finish(cfg)
+}
+
+#[derive(Default)]
+struct Stats {
+    calls_reached_store: u64,
+    counters: BTreeMap<String, u64>,
+    http_status: BTreeMap<String, u64>,
+}
+
+impl Stats {
+    fn c(&mut self, k: &str) {
+        *self.counters.entry(k.to_string()).or_insert(0) += 1;
+    }
+    fn flush(&mut self, r: &mut Report) {
+        for (k, v) in &self.counters {
+            r.count(k, *v);
+        }
+        r.note("http_status_histogram", json!(self.http_status));
+    }
+}
+
+// ---------------------------------------------------------------------------------------------
+// truth model (raw frames only)
+
+#[derive(Clone, Debug)]
+struct ParentView {
+    id: String,
+    head: u64,
+    msgs: Vec<(u64, String)>,
+    /// message id -> max seq among the message and run-spawned/run-ended frames naming it
+    related_max: BTreeMap<String, u64>,
+    non_message_ids: Vec<String>,
+    runs_in_flight: bool,
+    multi_run_message: bool,
+    frames: usize,
+}
+
+fn parent_view(frames: &[Frame], id: &str) -> Option<ParentView> {
+    let fs = truth::stream(frames, "continuity", id);
+    if fs.is_empty() {
+        return None;
+    }
+    let head = fs.last().map(|f| f.seq()).unwrap_or(0);
+    let mut msgs = Vec::new();
+    let mut related: BTreeMap<String, u64> = BTreeMap::new();
+    let mut non_message_ids = Vec::new();
+    let mut spawned: BTreeMap<String, u32> = BTreeMap::new(); // session id -> open
+    let mut runs_per_msg: BTreeMap<String, u32> = BTreeMap::new();
+    for f in &fs {
+        match f.ty() {
+            "continuity_message_appended" => {
+                msgs.push((f.seq(), f.id().to_string()));
+                related.insert(f.id().to_string(), f.seq());
+            }
+            "continuity_run_spawned" | "continuity_run_ended" => {
+                non_message_ids.push(f.id().to_string());
+                let mid = f.s("message_id").to_string();
+                // only counts when the message is (already) a message of this stream
+                if let Some(cur) = related.get_mut(&mid) {
+                    *cur = (*cur).max(f.seq());
+                }
+                let sess = f.s("run_session_id").to_string();
+                if f.ty() == "continuity_run_spawned" {
+                    *spawned.entry(sess).or_insert(0) += 1;
+                    *runs_per_msg.entry(mid).or_insert(0) += 1;
+                } else if let Some(n) = spawned.get_mut(&sess) {
+                    *n = n.saturating_sub(1);
+                }
+            }
+            _ => non_message_ids.push(f.id().to_string()),
+        }
+    }
+    Some(ParentView {
+        id: id.to_string(),
+        head,
+        msgs,
+        related_max: related,
+        non_message_ids,
+        runs_in_flight: spawned.values().any(|n| *n > 0),
+        multi_run_message: runs_per_msg.values().any(|n| *n > 1),
+        frames: fs.len(),
+    })
+}
+
+#[derive(Clone, Debug, PartialEq)]
+enum Expect {
+    Accept { cut: u64, msg: Option<String> },
+    Reject,
+}
+
+#[derive(Clone, Debug)]
+struct Selector {
+    class: &'static str,
+    from_seq: Option<u64>,
+    from_message_id: Option<String>,
+    /// raw JSON override for the HTTP transport (malformed numbers)
+    raw_seq: Option<Value>,
+}
+
+fn expect_for(p: &ParentView, s: &Selector) -> Expect {
+    if s.raw_seq.is_some() {
+        return Expect::Reject;
+    }
+    match (&s.from_seq, &s.from_message_id) {
+        (Some(_), Some(_)) => Expect::Reject,
+        (Some(q), None) => {
+            if *q > p.head {
+                Expect::Reject
+            } else {
+                let msg = p.msgs.iter().rev().find(|(seq, _)| seq <= q).map(|(_, id)| id.clone());
+                Expect::Accept { cut: *q, msg }
+            }
+        }
+        (None, Some(m)) => match p.related_max.get(m) {
+            Some(cut) => Expect::Accept {
+                cut: *cut,
+                msg: Some(m.clone()),
+            },
+            None => Expect::Reject,
+        },
+        (None, None) => Expect::Accept {
+            cut: p.head,
+            msg: p.msgs.last().map(|(_, id)| id.clone()),
+        },
+    }
+}
+
+fn pick_selector(rng: &mut Rng, p: &ParentView, other_thread_msg: Option<&String>) -> Selector {
+    let mk = |class, from_seq, from_message_id| Selector {
+        class,
+        from_seq,
+        from_message_id,
+        raw_seq: None,
+    };
+    loop {
+        match rng.below(15) {
+            0 | 1 => return mk("none", None, None),
+            2 => return mk("seq_0", Some(0), None),
+            3 => {
+                if p.head >= 2 {
+                    return mk("seq_mid", Some(rng.range(1, p.head - 1)), None);
+                }
+            }
+            4 => return mk("seq_head", Some(p.head), None),
+            5 => return mk("seq_head_plus_1", Some(p.head + 1), None),
+            6 => return mk("seq_u64_max", Some(u64::MAX), None),
+            7 | 8 => {
+                if !p.msgs.is_empty() {
+                    let (_, id) = rng.pick(&p.msgs).clone();
+                    return mk("id_known", None, Some(id));
+                }
+            }
+            9 => {
+                let id = format!(
+                    "{}-{}-4{}-a{}-{}",
+                    rng.hex(8),
+                    rng.hex(4),
+                    rng.hex(3),
+                    rng.hex(3),
+                    rng.hex(12)
+                );
+                return mk("id_unknown", None, Some(id));
+            }
+            10 => {
+                if !p.non_message_ids.is_empty() {
+                    let id = rng.pick(&p.non_message_ids).clone();
+                    return mk("id_non_message", None, Some(id));
+                }
+            }
+            11 => {
+                if let Some(m) = other_thread_msg {
+                    if !p.related_max.contains_key(m) {
+                        return mk("id_other_thread", None, Some(m.clone()));
+                    }
+                }
+            }
+            12 => {
+                let id = match rng.below(6) {
+                    0 => String::new(),
+                    1 => "not-a-uuid".to_string(),
+                    2 => "../../events.jsonl".to_string(),
+                    3 => rng.ascii(300),
+                    4 => rng.unicode(12),
+                    _ => p.msgs.last().map(|(_, id)| id.to_uppercase() + " ").unwrap_or_else(|| " ".into()),
+                };
+                // an upper-cased id that happens to be identical (no letters) would be "known"
+                if !p.related_max.contains_key(&id) {
+                    return mk("id_malformed", None, Some(id));
+                }
+            }
+            13 => {
+                let id = p
+                    .msgs
+                    .last()
+                    .map(|(_, id)| id.clone())
+                    .unwrap_or_else(|| "00000000-0000-4000-a000-000000000000".to_string());
+                let seq = if rng.bool() { p.head } else { 0 };
+                return mk("both", Some(seq), Some(id));
+            }
+            _ => {
+                // a seq strictly before the first message (if any such seq exists)
+                if let Some((first, _)) = p.msgs.first() {
+                    if *first > 0 {
+                        return mk("seq_before_first_message", Some(rng.below(*first)), None);
+                    }
+                }
+            }
+        }
+    }
+}
+
+#[derive(Clone, Debug)]
+struct Summary {
+    class: &'static str,
+    markdown: Option<String>,
+    artifact_id: Option<String>,
+    artifact_exists: bool,
+}
+
+fn blob_path(store: &Store, id: &str) -> std::path::PathBuf {
+    store.ws.join(".rip").join("artifacts").join("blobs").join(id)
+}
+
+fn blob_json(store: &Store, id: &str) -> Option<Value> {
+    // ids are joined onto the blobs dir by rip; only plain names are looked at here
+    if id.is_empty() || id.contains('/') || id.contains("..") {
+        return None;
+    }
+    let bytes = std::fs::read(blob_path(store, id)).ok()?;
+    serde_json::from_slice(&bytes).ok()
+}
+
+fn pick_summary(rng: &mut Rng, existing: &[String], tag: &str) -> Summary {
+    let text = || {
+        let mut r2 = Rng::new(crate::prng::fnv_str(tag));
+        format!("### handoff {tag}\n- {}\n", r2.ascii(24))
+    };
+    loop {
+        match rng.below(10) {
+            0..=3 => {
+                return Summary {
+                    class: "text",
+                    markdown: Some(text()),
+                    artifact_id: None,
+                    artifact_exists: false,
+                }
+            }
+            4 | 5 => {
+                if !existing.is_empty() {
+                    return Summary {
+                        class: "existing_artifact",
+                        markdown: None,
+                        artifact_id: Some(rng.pick(existing).clone()),
+                        artifact_exists: true,
+                    };
+                }
+            }
+            6 => {
+                return Summary {
+                    class: "missing_artifact",
+                    markdown: None,
+                    artifact_id: Some(rng.hex(64)),
+                    artifact_exists: false,
+                }
+            }
+            7 => {
+                return Summary {
+                    class: "neither",
+                    markdown: None,
+                    artifact_id: None,
+                    artifact_exists: false,
+                }
+            }
+            8 => {
+                if !existing.is_empty() {
+                    return Summary {
+                        class: "both_existing",
+                        markdown: Some(text()),
+                        artifact_id: Some(rng.pick(existing).clone()),
+                        artifact_exists: true,
+                    };
+                }
+            }
+            _ => {
+                return Summary {
+                    class: "both_missing",
+                    markdown: Some(text()),
+                    artifact_id: Some(rng.hex(64)),
+                    artifact_exists: false,
+                }
+            }
+        }
+    }
+}
+
+// ---------------------------------------------------------------------------------------------
+// one call = one judged evaluation
+
+#[derive(Clone, Copy, Debug, PartialEq)]
+enum Op {
+    Branch,
+    Handoff,
+}
+
+impl Op {
+    fn name(&self) -> &'static str {
+        match self {
+            Op::Branch => "branch",
+            Op::Handoff => "handoff",
+        }
+    }
+    fn lineage_type(&self) -> &'static str {
+        match self {
+            Op::Branch => "continuity_branched",
+            Op::Handoff => "continuity_handoff_created",
+        }
+    }
+    fn cut_field(&self) -> &'static str {
+        match self {
+            Op::Branch => "parent_seq",
+            Op::Handoff => "from_seq",
+        }
+    }
+    fn msg_field(&self) -> &'static str {
+        match self {
+            Op::Branch => "parent_message_id",
+            Op::Handoff => "from_message_id",
+        }
+    }
+    fn parent_field(&self) -> &'static str {
+        match self {
+            Op::Branch => "parent_thread_id",
+            Op::Handoff => "from_thread_id",
+        }
+    }
+}
+
+struct CallOutcome {
+    /// Some((child, cut, msg)) when the call reported success
+    ok: Option<(String, u64, Option<String>)>,
+    detail: String,
+}
+
+#[allow(clippy::too_many_arguments)]
+fn do_call(
+    rt: &tokio::runtime::Runtime,
+    app: &App,
+    stats: &mut Stats,
+    op: Op,
+    http: bool,
+    parent: &str,
+    sel: &Selector,
+    sum: Option<&Summary>,
+    title: Option<String>,
+) -> CallOutcome {
+    let actor = "rv-actor".to_string();
+    let origin = "rv-origin".to_string();
+    if http {
+        let mut body = serde_json::Map::new();
+        if let Some(t) = &title {
+            body.insert("title".into(), json!(t));
+        }
+        if let Some(m) = &sel.from_message_id {
+            body.insert("from_message_id".into(), json!(m));
+        }
+        if let Some(raw) = &sel.raw_seq {
+            body.insert("from_seq".into(), raw.clone());
+        } else if let Some(s) = sel.from_seq {
+            body.insert("from_seq".into(), json!(s));
+        }
+        body.insert("actor_id".into(), json!(actor));
+        body.insert("origin".into(), json!(origin));
+        if let Some(s) = sum {
+            if let Some(m) = &s.markdown {
+                body.insert("summary_markdown".into(), json!(m));
+            }
+            if let Some(a) = &s.artifact_id {
+                body.insert("summary_artifact_id".into(), json!(a));
+            }
+        }
+        let path = format!("/threads/{parent}/{}", op.name());
+        let (status, v) = rt.block_on(app.json("POST", &path, Some(&Value::Object(body))));
+        *stats.http_status.entry(format!("{}:{status}", op.name())).or_insert(0) += 1;
+        if (200..300).contains(&status) {
+            let child = v.get("thread_id").and_then(|x| x.as_str()).unwrap_or("").to_string();
+            let cut = v.get(op.cut_field()).and_then(|x| x.as_u64()).unwrap_or(u64::MAX);
+            let msg = v.get(op.msg_field()).and_then(|x| x.as_str()).map(|s| s.to_string());
+            CallOutcome {
+                ok: Some((child, cut, msg)),
+                detail: format!("http {status}"),
+            }
+        } else {
+            CallOutcome {
+                ok: None,
+                detail: format!("http {status}"),
+            }
+        }
+    } else {
+        let st = app.store();
+        let res = match op {
+            Op::Branch => st.branch(parent, title, sel.from_message_id.clone(), sel.from_seq, actor, origin),
+            Op::Handoff => {
+                let s = sum.cloned().unwrap_or(Summary {
+                    class: "neither",
+                    markdown: None,
+                    artifact_id: None,
+                    artifact_exists: false,
+                });
+                st.handoff(
+                    parent,
+                    title,
+                    (s.markdown, s.artifact_id),
+                    sel.from_message_id.clone(),
+                    sel.from_seq,
+                    (actor, origin),
+                )
+            }
+        };
+        match res {
+            Ok((child, cut, msg)) => CallOutcome {
+                ok: Some((child, cut, msg)),
+                detail: "ok".into(),
+            },
+            Err(e) => CallOutcome {
+                ok: None,
+                detail: e,
+            },
+        }
+    }
+}
+
+struct Judged {
+    child: Option<String>,
+    new_artifact: Option<String>,
+    violated: bool,
+}
+
+#[allow(clippy::too_many_arguments)]
+fn call_and_judge(
+    r: &mut Report,
+    rt: &tokio::runtime::Runtime,
+    store: &Store,
+    app: &App,
+    stats: &mut Stats,
+    op: Op,
+    http: bool,
+    parent: &ParentView,
+    parent_exists: bool,
+    sel: &Selector,
+    sum: Option<&Summary>,
+    shape: &str,
+    wit: &Value,
+) -> Judged {
+    let mut out = Judged {
+        child: None,
+        new_artifact: None,
+        violated: false,
+    };
+    let before = store.log_bytes();
+    let blobs_before = list_blobs(store);
+    let mut expect = if parent_exists { expect_for(parent, sel) } else { Expect::Reject };
+    if let (Op::Handoff, Some(s)) = (op, sum) {
+        if s.class == "neither" {
+            expect = Expect::Reject;
+        }
+    }
+    let title = Some(format!("t-{}", sel.class));
+    let res = do_call(rt, app, stats, op, http, &parent.id, sel, sum, title);
+    let after = store.log_bytes();
+    r.eval();
+    stats.calls_reached_store += 1;
+    let transport = if http { "http" } else { "api" };
+    let sum_class = sum.map(|s| s.class).unwrap_or("-");
+    stats.c(&format!("calls_{}_{}", op.name(), transport));
+    let wit = |extra: Value| {
+        let mut w = wit.clone();
+        if let Some(o) = w.as_object_mut() {
+            o.insert("op".into(), json!(op.name()));
+            o.insert("transport".into(), json!(transport));
+            o.insert("selector_class".into(), json!(sel.class));
+            o.insert("from_seq".into(), json!(sel.from_seq));
+            o.insert("from_message_id".into(), json!(sel.from_message_id));
+            o.insert("summary_class".into(), json!(sum_class));
+            o.insert("parent_head".into(), json!(parent.head));
+            o.insert("parent_messages".into(), json!(parent.msgs.len()));
+            o.insert("response".into(), json!(res.detail));
+            o.insert("detail".into(), extra);
+        }
+        w
+    };
+
+    if !after.starts_with(&before) {
+        r.inconclusive("events.jsonl is not an extension of its earlier bytes around a branch/handoff call (C02 matter); call not judged");
+        out.violated = true;
+        return out;
+    }
+    let added = match truth::parse_log(&after[before.len()..]) {
+        Ok(f) => f,
+        Err(e) => {
+            r.violation(
+                &format!("C10/added_bytes_not_whole_frames/{}", op.name()),
+                &format!("bytes appended by {} are not whole JSON lines: {}", op.name(), e.detail),
+                wit(json!(e.detail)),
+            );
+            out.violated = true;
+            return out;
+        }
+    };
+    stats.counters.entry("frames_added_observed".into()).and_modify(|n| *n += added.len() as u64).or_insert(added.len() as u64);
+
+    // (1) never touch the parent — holds for accepted and rejected calls alike
+    if let Some(f) = added.iter().find(|f| f.stream_id() == parent.id) {
+        r.violation(
+            &format!("C10/parent_stream_touched/{}", op.name()),
+            &format!("{} appended a {} frame (seq {}) to the source thread", op.name(), f.ty(), f.seq()),
+            wit(json!({"frame": f.v})),
+        );
+        out.violated = true;
+        return out;
+    }
+
+    let outcome;
+    match (&res.ok, &expect) {
+        (None, Expect::Reject) => {
+            outcome = "rejected";
+            stats.c("rejected_as_expected");
+            if !added.is_empty() {
+                r.violation(
+                    &format!("C10/rejected_call_appended/{}/{}", op.name(), sel.class),
+                    &format!(
+                        "{} was rejected ({}) but {} frame(s) were appended (first: {} on {})",
+                        op.name(),
+                        res.detail,
+                        added.len(),
+                        added[0].ty(),
+                        added[0].stream_id()
+                    ),
+                    wit(json!({"added": added.iter().map(|f| f.v.clone()).collect::<Vec<_>>()})),
+                );
+                out.violated = true;
+            }
+        }
+        (None, Expect::Accept { .. }) if sum_class == "both_missing" || sum_class == "missing_artifact" => {
+            // text + an artifact id that names no blob: the statement only demands that a handoff that
+            // exists carries a resolvable summary, so refusing the dangling id is as good as accepting
+            // the request on the strength of the text. A refusal must not append anything.
+            outcome = "rejected_dangling_artifact_id";
+            stats.c("rejected_text_plus_dangling_artifact_id");
+            if !added.is_empty() {
+                r.violation(
+                    &format!("C10/rejected_call_appended/{}/{}", op.name(), sel.class),
+                    &format!("{} was rejected ({}) but {} frame(s) were appended", op.name(), res.detail, added.len()),
+                    wit(json!({"added": added.iter().map(|f| f.v.clone()).collect::<Vec<_>>()})),
+                );
+                out.violated = true;
+            }
+        }
+        (None, Expect::Accept { cut, msg }) => {
+            outcome = "rejected_unexpectedly";
+            r.violation(
+                &format!("C10/rejected_valid_request/{}/{}/{}", op.name(), sel.class, sum_class),
+                &format!(
+                    "{} with a valid selector ({}) was rejected: {} (expected cut {} message {:?})",
+                    op.name(),
+                    sel.class,
+                    res.detail,
+                    cut,
+                    msg
+                ),
+                wit(json!({"expected_cut": cut, "expected_message": msg})),
+            );
+            out.violated = true;
+        }
+        (Some((child, _, _)), Expect::Reject) => {
+            outcome = "accepted_unexpectedly";
+            out.child = Some(child.clone());
+            r.violation(
+                &format!("C10/accepted_invalid_request/{}/{}/{}", op.name(), sel.class, sum_class),
+                &format!(
+                    "{} accepted a request that must be rejected (selector {}, summary {}, parent exists: {parent_exists})",
+                    op.name(),
+                    sel.class,
+                    sum_class
+                ),
+                wit(json!({"added": added.iter().map(|f| f.v.clone()).collect::<Vec<_>>()})),
+            );
+            out.violated = true;
+        }
+        (Some((child, rcut, rmsg)), Expect::Accept { cut, msg }) => {
+            outcome = "accepted";
+            stats.c("accepted_as_expected");
+            out.child = Some(child.clone());
+            // (2) child's first two frames
+            let shape_ok = added.len() == 2
+                && added[0].ty() == "continuity_created"
+                && added[0].seq() == 0
+                && added[1].ty() == op.lineage_type()
+                && added[1].seq() == 1
+                && added.iter().all(|f| f.stream_kind() == "continuity" && f.stream_id() == child);
+            if !shape_ok {
+                r.violation(
+                    &format!("C10/child_prefix_wrong/{}", op.name()),
+                    &format!(
+                        "{} did not append exactly continuity_created(seq 0) + {}(seq 1) on the new thread; appended: {:?}",
+                        op.name(),
+                        op.lineage_type(),
+                        added.iter().map(|f| format!("{}@{}#{}", f.ty(), f.stream_id(), f.seq())).collect::<Vec<_>>()
+                    ),
+                    wit(json!({"added": added.iter().map(|f| f.v.clone()).collect::<Vec<_>>()})),
+                );
+                out.violated = true;
+                return out;
+            }
+            let lin = &added[1];
+            let fcut = lin.u(op.cut_field());
+            let fmsg = lin.v.get(op.msg_field()).and_then(|x| x.as_str()).map(|s| s.to_string());
+            if lin.s(op.parent_field()) != parent.id {
+                r.violation(
+                    &format!("C10/lineage_names_wrong_parent/{}", op.name()),
+                    &format!("lineage frame names parent {} instead of {}", lin.s(op.parent_field()), parent.id),
+                    wit(json!({"frame": lin.v})),
+                );
+                out.violated = true;
+            }
+            if fcut.map(|c| c > parent.head).unwrap_or(true) {
+                r.violation(
+                    &format!("C10/cut_beyond_parent_head/{}/{}", op.name(), sel.class),
+                    &format!("recorded cut {:?} lies beyond the parent head {} at call time", fcut, parent.head),
+                    wit(json!({"frame": lin.v})),
+                );
+                out.violated = true;
+            } else if fcut != Some(*cut) {
+                r.violation(
+                    &format!("C10/cut_wrong/{}/{}", op.name(), sel.class),
+                    &format!("recorded cut {:?}, ADR-0009 rule gives {}", fcut, cut),
+                    wit(json!({"frame": lin.v, "expected_cut": cut})),
+                );
+                out.violated = true;
+            }
+            if &fmsg != msg {
+                r.violation(
+                    &format!("C10/cut_message_wrong/{}/{}", op.name(), sel.class),
+                    &format!("recorded message id {:?}, expected {:?}", fmsg, msg),
+                    wit(json!({"frame": lin.v, "expected_message": msg})),
+                );
+                out.violated = true;
+            }
+            if Some(*rcut) != fcut || rmsg != &fmsg {
+                r.violation(
+                    &format!("C10/response_differs_from_frame/{}/{}", op.name(), transport),
+                    &format!("response says cut {rcut} message {rmsg:?}, lineage frame says {fcut:?} {fmsg:?}"),
+                    wit(json!({"frame": lin.v})),
+                );
+                out.violated = true;
+            }
+            // (3) handoff carries a resolvable summary
+            if op == Op::Handoff {
+                let s = sum.expect("handoff has a summary class");
+                let f_md = lin.v.get("summary_markdown").and_then(|x| x.as_str());
+                let f_art = lin.v.get("summary_artifact_id").and_then(|x| x.as_str());
+                let art_ok = f_art.map(|a| blob_json(store, a).is_some()).unwrap_or(false);
+                if f_md.is_none() && !art_ok {
+                    let sig = if s.class == "missing_artifact" {
+                        SIG_UNRESOLVABLE.to_string()
+                    } else {
+                        format!("C10/handoff_unresolvable_summary/{}", s.class)
+                    };
+                    r.violation(
+                        &sig,
+                        &format!(
+                            "handoff was accepted and its lineage frame carries no summary_markdown and a summary_artifact_id ({:?}) with no readable blob under .rip/artifacts/blobs",
+                            f_art
+                        ),
+                        wit(json!({"frame": lin.v})),
+                    );
+                    out.violated = true;
+                } else {
+                    stats.c("handoff_summaries_resolved");
+                }
+                if f_md.is_some() && f_art.is_some() && !art_ok {
+                    stats.c("handoff_markdown_plus_dangling_artifact_id_accepted");
+                }
+                if let Some(given) = &s.markdown {
+                    if f_md != Some(given.as_str()) {
+                        r.violation(
+                            "C10/handoff_summary_text_altered",
+                            "summary_markdown in the lineage frame differs from the text that was given",
+                            wit(json!({"frame": lin.v})),
+                        );
+                        out.violated = true;
+                    }
+                }
+                if let Some(given) = &s.artifact_id {
+                    if f_art != Some(given.as_str()) {
+                        r.violation(
+                            "C10/handoff_summary_artifact_id_altered",
+                            "summary_artifact_id in the lineage frame differs from the id that was given",
+                            wit(json!({"frame": lin.v})),
+                        );
+                        out.violated = true;
+                    }
+                } else if let (Some(md), Some(a)) = (&s.markdown, f_art) {
+                    // text only: the runtime persists a bundle (ADR-0009 / handoff_context_bundle.md)
+                    if let Some(b) = blob_json(store, a) {
+                        let tref = b.pointer("/refs/threads/0").cloned().unwrap_or(Value::Null);
+                        let same = b.get("summary_markdown").and_then(|x| x.as_str()) == Some(md.as_str())
+                            && tref.get("thread_id").and_then(|x| x.as_str()) == Some(parent.id.as_str())
+                            && tref.get("seq").and_then(|x| x.as_u64()) == fcut
+                            && tref.get("message_id").and_then(|x| x.as_str()).map(|s| s.to_string()) == fmsg;
+                        if same {
+                            stats.c("handoff_bundles_matching_cut");
+                        } else {
+                            r.violation(
+                                "C10/handoff_bundle_source_ref_differs",
+                                "the persisted handoff bundle's text / source ref differs from the recorded cut",
+                                wit(json!({"frame": lin.v, "bundle": b})),
+                            );
+                            out.violated = true;
+                        }
+                        if !blobs_before.contains(a) {
+                            out.new_artifact = Some(a.to_string());
+                        }
+                    }
+                }
+            }
+        }
+    }
+    r.distinct_str(&format!(
+        "{}|{}|{}|{}|{}|{}",
+        op.name(),
+        sel.class,
+        sum_class,
+        transport,
+        shape,
+        outcome
+    ));
+    stats.c(&format!("selector_{}", sel.class));
+    if op == Op::Handoff {
+        stats.c(&format!("summary_{sum_class}"));
+    }
+    out
+}
+
+fn list_blobs(store: &Store) -> std::collections::BTreeSet<String> {
+    let mut out = std::collections::BTreeSet::new();
+    if let Ok(rd) = std::fs::read_dir(store.ws.join(".rip").join("artifacts").join("blobs")) {
+        for e in rd.flatten() {
+            out.insert(e.file_name().to_string_lossy().to_string());
+        }
+    }
+    out
+}
+
+fn shape_of(p: &ParentView) -> String {
+    format!(
+        "m{}r{}x{}f{}",
+        match p.msgs.len() {
+            0 => "0",
+            1 => "1",
+            2..=9 => "few",
+            _ => "many",
+        },
+        p.runs_in_flight as u8,
+        p.multi_run_message as u8,
+        match p.frames {
+            0..=2 => "tiny",
+            3..=30 => "small",
+            _ => "big",
+        }
+    )
+}
+
+// ---------------------------------------------------------------------------------------------
+
+fn grow_history(app: &App, store: &Store, conts: &[String], known: &mut Known, rng: &mut Rng, ops: usize, tag: &str, no_messages: bool) {
+    let weights: Vec<(OpKind, u64)> = if no_messages {
+        vec![(OpKind::Cursor, 5), (OpKind::Rotate, 2)]
+    } else {
+        vec![
+            (OpKind::Msg, 30),
+            (OpKind::BigMsg, 1),
+            (OpKind::RunSpawned, 16),
+            (OpKind::RunEnded, 12),
+            (OpKind::SideEffects, 8),
+            (OpKind::Cursor, 4),
+            (OpKind::Rotate, 1),
+            (OpKind::ManualCkpt, 3),
+            (OpKind::Auto, 2),
+            (OpKind::Schedule, 2),
+            (OpKind::Compile, 2),
+        ]
+    };
+    for _ in 0..ops {
+        let kind = pick_kind(rng, &weights);
+        let _ = exec(app, &store.data, conts, known, kind, rng, tag);
+    }
+}
+
+fn one_case(cfg: &Cfg, r: &mut Report, rt: &tokio::runtime::Runtime, rng: &mut Rng, idx: u64, stats: &mut Stats) {
+    let store = Store::new("c10");
+    let mut app = match App::open(&store, None) {
+        Ok(a) => a,
+        Err(e) => {
+            r.inconclusive(&format!("case {idx}: cannot open engine: {e}"));
+            return;
+        }
+    };
+    let root = match app.store().ensure_default() {
+        Ok(c) => c,
+        Err(e) => {
+            r.inconclusive(&format!("case {idx}: ensure_default: {e}"));
+            return;
+        }
+    };
+    // a second, unrelated thread (ids of its messages are "other-thread" ids)
+    let other = app
+        .store()
+        .branch(&root, Some("other".into()), None, None, "rv".into(), "rv".into())
+        .map(|x| x.0)
+        .ok();
+    let mut known = Known::default();
+    let mut other_msg: Option<String> = None;
+    if let Some(o) = &other {
+        other_msg = app.store().append_message(o, "rv".into(), "rv".into(), "other thread message".into()).ok();
+    }
+
+    let hist_shape = rng.below(7);
+    let tag = format!("c10-{idx}");
+    match hist_shape {
+        0 => {
+            // no messages at all; maybe some non-message frames
+            let n = rng.usize(4);
+            grow_history(&app, &store, &[root.clone()], &mut known, rng, n, &tag, true);
+        }
+        1 => grow_history(&app, &store, &[root.clone()], &mut known, rng, 1, &tag, false),
+        2 => {
+            // one message answered by several runs, some still in flight, other messages in between
+            let st = app.store();
+            if let Ok(m) = st.append_message(&root, "rv".into(), "rv".into(), "question".into()) {
+                known.msgs.push((root.clone(), m.clone()));
+                let runs = 2 + rng.usize(4);
+                for k in 0..runs {
+                    let sess = format!("sess-{idx}-{k}");
+                    let _ = st.append_run_spawned(&root, &m, &sess, "rv".into(), "rv".into());
+                    if rng.bool() {
+                        let _ = st.append_message(&root, "rv".into(), "rv".into(), format!("interleaved {k}"))
+                            .map(|id| known.msgs.push((root.clone(), id)));
+                    }
+                    if rng.chance(2, 3) {
+                        let _ = st.append_run_ended(&root, &m, &sess, "completed".into(), "rv".into(), "rv".into());
+                    }
+                }
+            }
+            let n = rng.usize(10);
+            grow_history(&app, &store, &[root.clone()], &mut known, rng, n, &tag, false);
+        }
+        3 => {
+            let n = 3 + rng.usize(12);
+            grow_history(&app, &store, &[root.clone()], &mut known, rng, n, &tag, false);
+        }
+        _ => {
+            let n = 10 + rng.usize(cfg.tier.pick(70, 200));
+            grow_history(&app, &store, &[root.clone()], &mut known, rng, n, &tag, false);
+        }
+    }
+
+    let mut parents: Vec<String> = vec![root.clone()];
+    let mut existing_artifacts: Vec<String> = Vec::new();
+    let calls = 6 + rng.usize(cfg.tier.pick(14, 30));
+    let mut had_violation = false;
+    for c in 0..calls {
+        if r.over(cfg) {
+            break;
+        }
+        // parent: mostly the root, sometimes a child that has grown
+        let pid = if rng.chance(3, 4) { parents[0].clone() } else { rng.pick(&parents).clone() };
+        let frames = match truth::parse_log(&store.log_bytes()) {
+            Ok(f) => f,
+            Err(e) => {
+                r.inconclusive(&format!("case {idx}: log unreadable before call: {}", e.detail));
+                return;
+            }
+        };
+        let unknown_parent = rng.chance(1, 30);
+        let view = if unknown_parent {
+            ParentView {
+                id: format!("{}-{}-4{}-a{}-{}", rng.hex(8), rng.hex(4), rng.hex(3), rng.hex(3), rng.hex(12)),
+                head: 0,
+                msgs: vec![],
+                related_max: BTreeMap::new(),
+                non_message_ids: vec![],
+                runs_in_flight: false,
+                multi_run_message: false,
+                frames: 0,
+            }
+        } else {
+            match parent_view(&frames, &pid) {
+                Some(v) => v,
+                None => continue,
+            }
+        };
+        let op = if rng.bool() { Op::Branch } else { Op::Handoff };
+        let http = rng.bool();
+        let mut sel = if unknown_parent {
+            Selector {
+                class: "unknown_parent",
+                from_seq: None,
+                from_message_id: None,
+                raw_seq: None,
+            }
+        } else {
+            pick_selector(rng, &view, other_msg.as_ref())
+        };
+        if http && rng.chance(1, 25) {
+            // a from_seq the JSON extractor must refuse
+            sel = Selector {
+                class: "seq_not_a_u64",
+                from_seq: None,
+                from_message_id: None,
+                raw_seq: Some(match rng.below(4) {
+                    0 => json!(-1),
+                    1 => json!(1.5),
+                    2 => json!("3"),
+                    _ => json!(18446744073709551616.0),
+                }),
+            };
+        }
+        let sum = if op == Op::Handoff {
+            Some(pick_summary(rng, &existing_artifacts, &format!("{idx}-{c}")))
+        } else {
+            None
+        };
+        let shape = if unknown_parent { "unknown".to_string() } else { shape_of(&view) };
+        let wit = json!({"case": idx, "call": c, "history_shape": hist_shape});
+        let j = call_and_judge(r, rt, &store, &app, stats, op, http, &view, !unknown_parent, &sel, sum.as_ref(), &shape, &wit);
+        if r.samples.len() < r.max_samples && c == 0 {
+            r.sample(json!({
+                "case": idx, "op": op.name(), "transport": if http {"http"} else {"api"},
+                "selector": sel.class, "from_seq": sel.from_seq, "summary": sum.as_ref().map(|s| s.class),
+                "parent_frames": view.frames, "parent_messages": view.msgs.len(), "parent_head": view.head,
+                "runs_in_flight": view.runs_in_flight, "message_with_several_runs": view.multi_run_message,
+                "child": j.child,
+            }));
+        }
+        if j.violated {
+            had_violation = true;
+        }
+        if let Some(a) = j.new_artifact {
+            existing_artifacts.push(a);
+        }
+        if let Some(child) = j.child {
+            // next append on the child gets seq 2 (sometimes across a restart)
+            if rng.chance(1, 2) {
+                let restart = rng.chance(1, 4);
+                if restart {
+                    drop(app);
+                    app = match App::open(&store, None) {
+                        Ok(a) => a,
+                        Err(e) => {
+                            r.inconclusive(&format!("case {idx}: reopen failed: {e}"));
+                            return;
+                        }
+                    };
+                    stats.c("restarts");
+                }
+                let before = store.log_bytes().len();
+                match app.store().append_message(&child, "rv".into(), "rv".into(), format!("first on child {c}")) {
+                    Ok(mid) => {
+                        let after = store.log_bytes();
+                        let added = truth::parse_log(&after[before.min(after.len())..]).unwrap_or_default();
+                        let ok = added.len() == 1 && added[0].id() == mid && added[0].stream_id() == child && added[0].seq() == 2;
+                        if ok {
+                            stats.c("child_next_append_seq_2");
+                        } else {
+                            r.violation(
+                                &format!("C10/child_next_seq_wrong/{}/{}", op.name(), if restart { "after_restart" } else { "live" }),
+                                &format!(
+                                    "the first append on the new thread did not get seq 2: {:?}",
+                                    added.iter().map(|f| format!("{}#{}", f.ty(), f.seq())).collect::<Vec<_>>()
+                                ),
+                                json!({"case": idx, "call": c, "child": child}),
+                            );
+                            had_violation = true;
+                        }
+                        known.msgs.push((child.clone(), mid));
+                    }
+                    Err(e) => {
+                        r.violation(
+                            &format!("C10/child_append_failed/{}", op.name()),
+                            &format!("appending to the freshly created thread failed: {e}"),
+                            json!({"case": idx, "call": c, "child": child}),
+                        );
+                        had_violation = true;
+                    }
+                }
+                if parents.len() < 4 && rng.chance(1, 2) {
+                    let n = 1 + rng.usize(8);
+                    grow_history(&app, &store, &[child.clone()], &mut known, rng, n, &tag, false);
+                    parents.push(child);
+                }
+            }
+        }
+        // the parent keeps living between calls
+        if rng.chance(1, 3) {
+            let n = 1 + rng.usize(4);
+            let no_msgs = hist_shape == 0 && rng.chance(2, 3);
+            grow_history(&app, &store, &[root.clone()], &mut known, rng, n, &tag, no_msgs);
+        }
+    }
+    // whole-log sanity at the end (seq 0,1,2,… per stream, unique ids)
+    let _ = had_violation;
+    {
+        match truth::parse_log(&store.log_bytes()) {
+            Ok(frames) => {
+                if let Err(e) = truth::check_streams(&frames) {
+                    r.violation(
+                        &format!("C10/stream_order_after_branching/{}", e.kind),
+                        &format!("per-stream seq broken after branch/handoff workload: {}", e.detail),
+                        json!({"case": idx, "detail": e.detail}),
+                    );
+                }
+                stats.counters.entry("frames_in_judged_logs".into()).and_modify(|n| *n += frames.len() as u64).or_insert(frames.len() as u64);
+            }
+            Err(e) => r.inconclusive(&format!("case {idx}: final log unreadable: {}", e.detail)),
+        }
+    }
+    stats.c("histories");
+}
+
+/// Directed cases that run on every invocation.
+fn directed(_cfg: &Cfg, r: &mut Report, rt: &tokio::runtime::Runtime, stats: &mut Stats) {
+    let store = Store::new("c10d");
+    let app = match App::open(&store, None) {
+        Ok(a) => a,
+        Err(e) => {
+            r.inconclusive(&format!("directed: cannot open engine: {e}"));
+            return;
+        }
+    };
+    let st = app.store();
+    let Ok(root) = st.ensure_default() else {
+        r.inconclusive("directed: ensure_default failed");
+        return;
+    };
+    let mut ids = Vec::new();
+    for i in 0..3 {
+        if let Ok(m) = st.append_message(&root, "rv".into(), "rv".into(), format!("m{i}")) {
+            ids.push(m);
+        }
+    }
+    if let Some(m) = ids.get(1) {
+        let _ = st.append_run_spawned(&root, m, "sess-d", "rv".into(), "rv".into());
+        let _ = st.append_run_ended(&root, m, "sess-d", "completed".into(), "rv".into(), "rv".into());
+    }
+    let missing = "0123456789abcdef0123456789abcdef0123456789abcdef0123456789abcdef".to_string();
+    for http in [false, true] {
+        let frames = truth::parse_log(&store.log_bytes()).unwrap_or_default();
+        let Some(view) = parent_view(&frames, &root) else {
+            r.inconclusive("directed: parent stream missing");
+            return;
+        };
+        let sel = Selector {
+            class: "none",
+            from_seq: None,
+            from_message_id: None,
+            raw_seq: None,
+        };
+        let sum = Summary {
+            class: "missing_artifact",
+            markdown: None,
+            artifact_id: Some(missing.clone()),
+            artifact_exists: false,
+        };
+        let wit = json!({"directed": "handoff_missing_summary_artifact"});
+        call_and_judge(r, rt, &store, &app, stats, Op::Handoff, http, &view, true, &sel, Some(&sum), "directed", &wit);
+        // message answered by a run: cut = run_ended seq
+        if let Some(m) = ids.get(1) {
+            let sel = Selector {
+                class: "id_known",
+                from_seq: None,
+                from_message_id: Some(m.clone()),
+                raw_seq: None,
+            };
+            call_and_judge(r, rt, &store, &app, stats, Op::Branch, http, &view, true, &sel, None, "directed", &wit);
+        }
+    }
+    stats.c("directed_cases");
 }
